@@ -8,6 +8,7 @@ from . import common as C
 
 VARIANTS_BAD1 = ["badkind", "fewtags", "noenc"]
 VARIANTS_BAD2 = ["badb64", "garbage"]
+COMMIT_OPS = ("invite", "commit", "rename", "remove", "rotate", "rotonto")   # merged by an up-to-date member; publish one evolution event
 
 # ---- generator -----------------------------------------------------------------------------------
 
@@ -173,16 +174,16 @@ def driver_line(op, res):
     if t[0] == "group":
         if not res.startswith("ok"):
             return None
-        return f"group {t[1]} {t[2]} {t[3]} {kv(res,'g')} {kv(res,'w') or '-'} {kv(res,'epoch')} {kv(res,'tok')} {kv(res,'members')}"
+        return f"group {t[1]} {t[2]} {t[3]} {kv(res,'g')} {kv(res,'w') or '-'} {kv(res,'epoch')} {kv(res,'tok')} {kv(res,'members')} {kv(res,'nid')}"
     if t[0] == "forge":
         if not res.startswith("ok"):
             return None
-        return f"forge {t[1]} {t[2]} {t[3]} {t[4]} {kv(res,'w')} {kv(res,'epoch')} {kv(res,'tok')} {kv(res,'members')}"
-    if t[0] in ("invite", "commit", "rename", "remove"):
+        return f"forge {t[1]} {t[2]} {t[3]} {t[4]} {kv(res,'w')} {kv(res,'epoch')} {kv(res,'tok')} {kv(res,'members')} {kv(res,'nid')}"
+    if t[0] in COMMIT_OPS:
         if not res.startswith("ok"):
             return None
         arg = t[3] if len(t) > 3 else "-"
-        return f"{t[0]} {t[1]} {t[2]} {arg} {kv(res,'ev')} {kv(res,'w') or '-'} {kv(res,'epoch')} {kv(res,'tok')} {kv(res,'members')}"
+        return f"{t[0]} {t[1]} {t[2]} {arg} {kv(res,'ev')} {kv(res,'w') or '-'} {kv(res,'epoch')} {kv(res,'tok')} {kv(res,'members')} {kv(res,'nid')}"
     return op
 
 def run(cases):
@@ -220,7 +221,7 @@ def canon_impl(op, o):
         res = "app" if res == "app" else "noapp"
     if t[0] == "deliver":
         res = "commit" if res == "commit" else "nocommit"
-    if t[0] in ("group", "invite", "commit", "rename", "remove", "forge"):
+    if t[0] in ("group", "forge") + COMMIT_OPS:
         res = res.split()[0]
     return res, view
 
